@@ -35,6 +35,7 @@ MAP = [
  ("extract refuses paths that leave the target", [("C12", "'..' components in directory or base names wrote outside the target directory; relative (source package) paths made extraction fail")]),
  ("extract does not write through symbolic links", [("C12", "a symbolic link followed by a file of the same path or below it wrote outside the target directory")]),
  ("special files are an error instead of unreachable", [("C12", "file types other than regular/dir/symlink hit unreachable!()")]),
+ ("the pgp verifier reads the signed data once", [("C02", "a signature made by a subkey over the EMPTY message whose issuer is named twice verified for any header: the second verification attempt read from the already exhausted reader")]),
  ("extract works for packages without files", [("C12", "extract failed for packages without files (directory names tag absent)")]),
 ]
 def main():
